@@ -19,7 +19,7 @@ ASSUMPTIONS = ['user functions are deterministic tables (so the first-passage so
 BUDGET = {'quick': 150, 'thorough': 1200}
 CHUNK = {'quick': 40, 'thorough': 200}
 REQUIRED = ['sim_nodes_checked', 'infectors_checked', 'array_rows_checked', 'builder_arcs_checked', 'markov_builder_draws_checked',
-            'get_infected_checked', 'tie_cases']
+            'get_infected_checked', 'tie_cases', 'one_shot_recovered_iterables']
 VALUE_SETS = {'small_int': [0, 1, 2], 'ties_inf': [0.5, 1, 1, 2, float('inf')], 'zeros': [0, 0, 1], 'cont': None, 'dyadic': [0.25, 0.5, 0.75, 1.5]}
 INF = float('inf')
 
@@ -112,7 +112,11 @@ def run_sim(case, res):
         kw = dict(trans_and_rec_time_fxn=joint, trans_and_rec_time_args=('c',))
     kw.update(initial_infecteds=list(I0), tmin=tmin, tmax=tmax, return_full_data=case['full'])
     if R0:
-        kw['initial_recovereds'] = list(R0)
+        # "iterable of nodes": list, tuple, set or a one-shot iterator / generator (e.g. G.neighbors(x))
+        form = ['list', 'iterator', 'set', 'generator', 'tuple'][case['seed'] % 5]
+        kw['initial_recovereds'] = {'list': list(R0), 'tuple': tuple(R0), 'set': set(R0), 'iterator': iter(list(R0)), 'generator': (x for x in list(R0))}[form]
+        if form in ('iterator', 'generator'):
+            bump(res, 'one_shot_recovered_iterables')
     mode = 'full' if case['full'] else 'arrays'
     try:
         out = EoN.fast_nonMarkov_SIR(G, **kw)
